@@ -514,13 +514,17 @@ Theorem released_after_end_l : forall w p rid,
   /\ (forall n, RG.n_had (RR.getN (snd p) n) = true -> RG.n_out (RR.getN (snd p) n) = [] ->
                 RG.n_hrel (RR.getN (snd p) n) <> None ->
                 RG.n_rel (RR.getN (snd p) n) = true /\ RG.n_cln (RR.getN (snd p) n) = 1)
+  /\ (forall n, RG.n_had (RR.getN (snd p) n) = true -> RG.n_hrel (RR.getN (snd p) n) <> None ->
+                (forall m, In n (RG.n_ins (RR.getN (snd p) m)) -> RG.n_rel (RR.getN (snd p) m) = true) ->
+                RG.n_out (RR.getN (snd p) n) = [] /\ RG.n_rel (RR.getN (snd p) n) = true /\ RG.n_cln (RR.getN (snd p) n) = 1)
   /\ (forall n, RG.n_cln (RR.getN (snd p) n) <= 1).
 Proof.
   intros w p rid R S Q.
   destruct (never_computes_after_end_l w p [] p rid R S eq_refl) as (_ & C & _ & _).
   pose proof (preachable_Good _ _ R) as [_ _ Gr].
-  split; [exact C|]. split; [unfold RB.all_frames; rewrite Q; reflexivity|]. split.
+  split; [exact C|]. split; [unfold RB.all_frames; rewrite Q; reflexivity|]. split; [|split].
   - intros n. apply (Thunder.Props.C08.cleanup_exactly_once_at_quiescence _ _ _ n Gr Q).
+  - intros n. apply (Thunder.Props.C08.cleanup_exactly_once_after_last_registrant_released _ _ _ n Gr Q).
   - intros n. apply (Thunder.Props.C08.cleanup_at_most_once _ _ _ n Gr).
 Qed.
 
